@@ -19,7 +19,7 @@ NA = {
 }
 
 CHECKS = {}
-NOT_YET = ["C03", "C20"]  # written, but not claimed until their families are swept and the known findings listed
+NOT_YET = []  # checks that are written but not claimed yet
 
 def check(pid, engine, category, text, note, technique, design_ref):
     CHECKS[pid] = {
